@@ -379,10 +379,175 @@ fn closed_loop_case(report: &mut Report, seed: u64, idx: u64, confirm: bool) -> 
     Some((mean - target_accept, se))
 }
 
+// ───────────────────────────── Adam inside a real chain ─────────────────────
+
+#[derive(Clone, Copy, Debug)]
+struct RefAdam {
+    log_step: f64,
+    m: f64,
+    v: f64,
+    t: u64,
+}
+
+impl RefAdam {
+    fn new(step: f64) -> Self {
+        RefAdam { log_step: step.ln(), m: 0.0, v: 0.0, t: 0 }
+    }
+    fn advanced(&self, o: &AdamOptions, a: f64, target: f64) -> RefAdam {
+        let g = a - target;
+        let t = self.t + 1;
+        let m = o.beta1 * self.m + (1.0 - o.beta1) * g;
+        let v = o.beta2 * self.v + (1.0 - o.beta2) * g * g;
+        let m_hat = m / (1.0 - o.beta1.powi(t as i32));
+        let v_hat = v / (1.0 - o.beta2.powi(t as i32));
+        RefAdam { log_step: self.log_step + o.learning_rate * m_hat / (v_hat.sqrt() + o.epsilon), m, v, t }
+    }
+}
+
+/// The Adam arm of the adaptation strategy as it is wired into a chain: the reported step size after every warmup
+/// draw must be the Adam update of the previous one with the asymmetric acceptance statistic (before the final
+/// window: either statistic, since the switch to the symmetric one may come earlier) or the symmetric one (final
+/// window), and it must move up exactly when the smoothed acceptance exceeds the target.
+fn adam_chain_case(report: &mut Report, seed: u64, idx: u64) {
+    report.eval();
+    let mut rng = HRng::new(seed).fork(0xADAC4A1 + idx);
+    let preset = if idx % 2 == 0 { Preset::DiagNuts } else { Preset::LowRankNuts };
+    let replay = json!({"kind": "adam_chain", "seed": seed, "idx": idx});
+    let o = if idx % 3 == 0 {
+        AdamOptions::default()
+    } else {
+        AdamOptions { beta1: rng.range(0.0, 0.95), beta2: rng.range(0.5, 0.9999), epsilon: rng.log_range(1e-12, 1e-4), learning_rate: rng.log_range(5e-3, 0.3) }
+    };
+    let target_accept = rng.range(0.5, 0.95);
+    let d = 1 + rng.below(6) as usize;
+    let target = match (idx / 2) % 3 {
+        0 => Target::iso(d, 1.0),
+        1 => Target::scaled(&mut rng, d, 30.0),
+        _ => Target::correlated(&mut rng, d, 10.0),
+    };
+    let nt = 40 + rng.below(300);
+    let step_window = *rng.choose(&[0.15, 0.3, 0.6]);
+    let start = start_point(&target, &mut rng);
+    let patches: Vec<(&str, J)> = vec![
+        ("num_tune", json!(nt)),
+        ("num_draws", json!(10)),
+        ("adapt_options.step_size_window", json!(step_window)),
+        ("adapt_options.step_size_settings.target_accept", json!(target_accept)),
+        ("adapt_options.step_size_settings.adapt_options.method", json!("Adam")),
+        ("adapt_options.step_size_settings.adapt_options.adam.beta1", json!(o.beta1)),
+        ("adapt_options.step_size_settings.adapt_options.adam.beta2", json!(o.beta2)),
+        ("adapt_options.step_size_settings.adapt_options.adam.epsilon", json!(o.epsilon)),
+        ("adapt_options.step_size_settings.adapt_options.adam.learning_rate", json!(o.learning_rate)),
+    ];
+    let Ok((mut chain, skipped)) = chain_on(preset, &patches, Logged::new(target.clone(), false), rng.next_u64()) else {
+        report.inconclusive("adam chain: settings rejected");
+        return;
+    };
+    if !skipped.is_empty() {
+        report.inconclusive("adam chain: settings path missing");
+        return;
+    }
+    if chain.set_position(&start).is_err() {
+        report.inconclusive("adam chain: set_position failed");
+        return;
+    }
+    let Some(w0) = chain.window() else {
+        report.inconclusive("adam chain: no window state");
+        return;
+    };
+    let f_win = w0.final_step_size_window;
+    let mut pre = w0;
+    let mut hyp = vec![RefAdam::new(chain.current_step_size())];
+    let (mut n_final, mut n_up, mut n_down) = (0u64, 0u64, 0u64);
+    for dd in 0..nt {
+        let out = match crate::util::guard(|| chain.draw()) {
+            Ok(Ok(o)) => o,
+            _ => {
+                report.inconclusive("adam chain: draw failed");
+                return;
+            }
+        };
+        let post = chain.window().unwrap();
+        let (Some(bar), Some(a), Some(a_sym)) = (out.f64("step_size_bar"), out.f64("mean_tree_accept"), out.f64("mean_tree_accept_sym")) else {
+            report.inconclusive("adam chain: statistics missing");
+            return;
+        };
+        if !(bar.is_finite() && bar > 0.0) {
+            report.violation("C07:adam_chain:step_not_positive_finite", format!("draw {dd}: {bar:e}"), replay);
+            return;
+        }
+        let ok = |r: &RefAdam| (bar.ln() - r.log_step).abs() <= 1e-9 * (1.0 + r.log_step.abs());
+        let mut next: Vec<RefAdam> = vec![];
+        let mut asym_matches_in_final = false;
+        for r in &hyp {
+            let c_sym = r.advanced(&o, a_sym, target_accept);
+            let c_asym = r.advanced(&o, a, target_accept);
+            if ok(&c_sym) {
+                next.push(c_sym);
+            }
+            if ok(&c_asym) {
+                if dd < f_win {
+                    next.push(c_asym);
+                } else if !ok(&c_sym) {
+                    asym_matches_in_final = true;
+                }
+            }
+        }
+        let reinit = pre.has_initial_mass_matrix && !post.has_initial_mass_matrix;
+        if reinit {
+            // a successful re-run of the search restarts Adam from the step it found; a failed one leaves it alone
+            next.push(RefAdam::new(bar));
+        }
+        next.sort_by(|x, y| (x.log_step, x.m, x.v).partial_cmp(&(y.log_step, y.m, y.v)).unwrap_or(std::cmp::Ordering::Equal));
+        next.dedup_by(|x, y| (x.log_step - y.log_step).abs() < 1e-13 && (x.m - y.m).abs() < 1e-13 && x.t == y.t);
+        if next.len() > 256 {
+            report.inconclusive("adam chain: too many hypotheses");
+            return;
+        }
+        if next.is_empty() {
+            let r = hyp[0];
+            let (c_sym, c_asym) = (r.advanced(&o, a_sym, target_accept), r.advanced(&o, a, target_accept));
+            let moved = bar.ln() - r.log_step;
+            let what = if dd >= f_win && asym_matches_in_final {
+                "final_window_uses_asymmetric_statistic"
+            } else if hyp.len() == 1 && moved * (c_sym.log_step - r.log_step) < 0.0 && moved * (c_asym.log_step - r.log_step) < 0.0 {
+                "moved_against_smoothed_acceptance"
+            } else {
+                "step_size_not_reproduced"
+            };
+            report.violation(
+                format!("C07:adam_chain:{what}"),
+                format!(
+                    "{} draw {dd} (final window from {f_win}, num_tune {nt}): acceptance {a} / symmetric {a_sym}, target {target_accept}; step {:e} -> {bar:e}; the Adam update gives {:e} (asymmetric) / {:e} (symmetric) [{} hypotheses]",
+                    preset.name(), r.log_step.exp(), c_asym.log_step.exp(), c_sym.log_step.exp(), hyp.len()
+                ),
+                replay,
+            );
+            return;
+        }
+        if next.iter().all(|r| r.log_step > hyp.iter().map(|h| h.log_step).fold(f64::NEG_INFINITY, f64::max)) {
+            n_up += 1;
+        } else {
+            n_down += 1;
+        }
+        if dd >= f_win {
+            n_final += 1;
+        }
+        report.count("adam_chain_updates_replayed", 1);
+        hyp = next;
+        pre = post;
+    }
+    report.count("adam_chain_updates_in_final_window", n_final);
+    let mut h = Fnv::new();
+    h.str("adam_chain").str(preset.name()).str(target.name()).u64((idx % 3 == 0) as u64).u64((n_up > 0) as u64).u64((n_down > 0) as u64).u64((n_final > 10) as u64);
+    report.nontrivial(h.finish());
+}
+
 pub fn run(args: &Args, report: &mut Report) {
     report.rule = "open loop: DualAverage / Adam objects (hook) driven with 7 families of acceptance sequences (all-0, all-1, alternating, uniform, \
         random walk, long extreme runs, realistic) of length <= 2000 x random options; initial search: real Strategy::init on random targets / \
-        transformations / momenta, bracket re-measured with the real integrator; closed loop: adapted chains on Gaussian targets x target_accept \
+        transformations / momenta, bracket re-measured with the real integrator; Adam inside real chains: every warmup update replayed from the \
+        reported statistics (early / late statistic, direction); closed loop: adapted chains on Gaussian targets x target_accept \
         {0.6,0.8,0.9} x {DualAverage, Adam}; distinct = (component, sequence family / direction and number of doublings / configuration)".into();
     report.assumptions.push("closed-loop tolerance: |mean symmetric acceptance - target| <= 0.3 + 6 standard errors (largest deviation seen on the unchanged tree over 300 calibration runs: 0.13), confirmed on three fresh seeds with 4x the draws before it counts".into());
     let seed = args.seed ^ 0xC07;
@@ -393,6 +558,7 @@ pub fn run(args: &Args, report: &mut Report) {
             "dual" => open_loop_dual(report, s, idx),
             "adam" => open_loop_adam(report, s, idx),
             "search" => search_case(report, s, idx),
+            "adam_chain" => adam_chain_case(report, s, idx),
             _ => {
                 let r = closed_loop_case(report, s, idx, false);
                 eprintln!("{r:?}");
@@ -403,6 +569,8 @@ pub fn run(args: &Args, report: &mut Report) {
     let n_dual = report.size(4000, 100_000);
     let n_adam = report.size(1500, 40_000);
     let n_search = report.size(1500, 40_000);
+    let n_adam_chain = report.size(240, 6000);
+    crate::report::par_run(report, n_adam_chain, |i, rep| adam_chain_case(rep, seed, i));
     crate::report::par_run(report, n_dual + n_adam + n_search, |i, rep| {
         if i < n_dual {
             open_loop_dual(rep, seed, i)
@@ -435,7 +603,11 @@ pub fn run(args: &Args, report: &mut Report) {
             let mut confirmed = 0;
             for k in 0..3u64 {
                 let mut sub = report.child();
-                if let Some((d2, s2)) = closed_loop_case(&mut sub, seed ^ (0x1000 + k), i, true) {
+                let r2 = closed_loop_case(&mut sub, seed ^ (0x1000 + k), i, true);
+                if std::env::var("VERIF_TIMING").is_ok() {
+                    eprintln!("  confirm {i}/{k}: {r2:?}");
+                }
+                if let Some((d2, s2)) = r2 {
                     if d2.abs() > 0.3 + 6.0 * s2 && d2.signum() == dev.signum() {
                         confirmed += 1;
                     }
